@@ -96,6 +96,13 @@ class HookFile(io.BytesIO):
         return io.BytesIO.read(self, n)
 
 
+class _Label(str):
+    def __str__(self):
+        return 'Label.' + str.upper(self)
+
+    __repr__ = __str__
+
+
 def texts_of(track):
     """The texts of the text and track_name events of a track."""
     return [m.text if m.type == 'text' else m.name for m in track if m.type in ('text', 'track_name')]
@@ -211,7 +218,9 @@ def run_call(kind, cs, fault, at, children=(), outer='latin1'):
         tr = mido.MidiTrack()
         realised = fault in ('none', 'unknown_charset')
         for i in range(1, 4):
-            m = mido.MetaMessage('text', text=TEXTS[cs], time=1) if i != 2 else \
+            # (the third text is a str subclass with its own __str__, e.g. a str-valued Enum member:
+            # its characters are the text)
+            m = mido.MetaMessage('text', text=TEXTS[cs] if i != 3 else _Label(TEXTS[cs]), time=1) if i != 2 else \
                 mido.MetaMessage('track_name', name=TEXTS[cs], time=1)
             if fault == 'non_integer_time' and at == i:
                 m = mido.MetaMessage('text', text=TEXTS[cs], time=0.5)
@@ -264,7 +273,16 @@ def run_call(kind, cs, fault, at, children=(), outer='latin1'):
         ok = True
         inside = None
         try:
-            mid.save(file=buf)
+            if variant == 1 and not children:
+                # a MidiFile is a context manager (it closes nothing and changes nothing on entry)
+                with mid as same:
+                    inside_with = elsewhere() if same is mid else 'with-statement yields another object'
+                    mid.save(file=buf)
+                    inside_with = inside_with or elsewhere()
+                if inside_with:
+                    probs.append(('charset-leak/with-block', 'inside `with MidiFile(charset=%r)`: %s' % (use_cs, inside_with)))
+            else:
+                mid.save(file=buf)
         except Exception as exc:
             ok = False
             inside = elsewhere()           # while the exception (and its traceback) is alive
